@@ -210,4 +210,18 @@ structure Setting where
   order : Nat
 deriving Repr
 
+/-! ### what the kernel evaluates for each tabulated setting (the `decide +kernel` runs are spread over the files
+    ShelxProps/Lemmas/C11Tab*.lean, which build in parallel; soundness: ShelxProps/Lemmas/C11Closed.lean) -/
+
+/-- valid setting, and as many operators as International Tables A list for the group -/
+def validOK (e : Setting) : Bool := validB e.N e.S && ((fullGroup e.N e.S).length == e.order)
+
+/-- the spec list is closed under left multiplication by `gs` (numerators over 24) -/
+def closedUnder (gs : Setting → List Op) (e : Setting) : Bool := leftClosedSB 24 (gs e) (fullGroup e.N e.S)
+
+def gensOfSetting (e : Setting) : List Op := gensOf e.N e.S
+
+/-- valid setting, spec list closed under its generators, order as in International Tables A -/
+def specOK (e : Setting) : Bool := validOK e && closedUnder gensOfSetting e
+
 end Shelx.C11
